@@ -32,7 +32,7 @@ func textsAt(l lm.List, num, den int64) string {
 
 func checkUnfragment(l lm.List, unit int64) (lm.List, string, string) {
 	exp := refops.Unfragment(l)
-	r := lm.Build(l, nil, nil)
+	r := lm.Build(l, []string{"a"}, []string{"r"})
 	pan := ""
 	func() {
 		defer func() {
@@ -117,7 +117,7 @@ func c11Run(c *core.Ctx) {
 				if !c.Mine() {
 					return true
 				}
-				l := l0.Scale(unit)
+				l := decorate(l0.Scale(unit))
 				exp, key, msg := checkUnfragment(l, unit)
 				c.Transitions++
 				c.Traces++
@@ -147,10 +147,10 @@ func c11Run(c *core.Ctx) {
 		if !c.Mine() {
 			return true
 		}
-		l := l0.Scale(ms)
+		l := decorate(l0.Scale(ms))
 		for f := int64(1); f <= 5; f++ {
 			mid := refops.Fragment(l, f*ms)
-			r := lm.Build(mid, nil, nil)
+			r := lm.Build(mid, []string{"a"}, []string{"r"})
 			r.Subs.Unfragment()
 			got := r.Extract()
 			c.Transitions += 2
@@ -187,7 +187,7 @@ func c11Replay(sub string, raw json.RawMessage) (string, bool) {
 		return msg, key != ""
 	}
 	mid := refops.Fragment(oc.List, oc.P[0])
-	r := lm.Build(mid, nil, nil)
+	r := lm.Build(mid, []string{"a"}, []string{"r"})
 	r.Subs.Unfragment()
 	got := r.Extract()
 	return fmt.Sprintf("Unfragment(Fragment(%s,%s)) = %s", oc.List, lm.D(oc.P[0]), got), !lm.EqualNoUID(got.NormEqualStarts(), oc.List.NormEqualStarts())
